@@ -23,12 +23,12 @@ def default_vdims(nvdim):
     return None
 
 
-def sym_field(E, ndim, nvdim, prefix='f', mesh=None, vdims='default', mapping='default', unit=None, assume=None, dtype=None):
+def sym_field(E, ndim, nvdim, prefix='f', mesh=None, vdims='default', mapping='default', unit=None, assume=None, dtype=None, adtype='float'):
     assume = assume if assume is not None else []
     if mesh is None:
         mesh, assume = sym_mesh(E, ndim, prefix=prefix + 'm', assume=assume, tf=1e-12)
     n = [E.pyscalar(x) for x in mesh.attrs['_n'].elems]
-    arr = E.sym_array(f'{prefix}_A', n + [nvdim], 'float')
+    arr = E.sym_array(f'{prefix}_A', n + [nvdim], adtype)      # adtype 'int': an integer-typed value array (Field(..., dtype=int))
     val = E.sym_array(f'{prefix}_V', n, 'bool')
     dims = mesh.attrs['_region'].attrs['_dims']
     vd = default_vdims(nvdim) if vdims == 'default' else vdims
@@ -580,6 +580,8 @@ class FieldMethod(Contract):
         nv, d = cfg['nvdim'], cfg['ndim']
         vd = ['p', 'q', 'r', 's'][:nv] if nv > 1 else None
         mp = dict(zip(vd, reversed(DIMS[:d]))) if (vd and nv == d) else {}
+        if cfg.get('adtype'):
+            kw.setdefault('adtype', cfg['adtype'])
         return sym_field(E, d, nv, unit='T', vdims=vd, mapping=mp, **kw)
 
     def make_args(s, E, cfg, f, assume):
@@ -685,6 +687,9 @@ class NormGetter(FieldMethod):
 
 
 class Orientation(FieldMethod):
+    # integer-typed value arrays: the quotient is not an integer, the result must be a floating field
+    extra_cfg = ({'ndim': 1, 'nvdim': 3, 'adtype': 'int'}, {'ndim': 2, 'nvdim': 1, 'adtype': 'int'})
+
     def __init__(s):
         FieldMethod.__init__(s, 'orientation')
 
@@ -702,7 +707,9 @@ class Orientation(FieldMethod):
         thr = z3.RealVal('1/100000000')
         nonzero = sq > thr * thr            # |v| > 1e-8  (np.isclose(norm, 0) with atol 1e-8)
         oc = R(result.attrs['_array'].at(E, idx))
-        return [('unit length where the field is longer than the 1e-8 threshold', z3.Implies(nonzero, osq == 1)),
+        # |o|^2 == 1 is stated in the division-free form |o|^2 * |v|^2 == |v|^2 (equivalent, since |v|^2 > thr^2 > 0 on this branch):
+        # a polynomial identity after substituting the guarded quotients, instead of a non-linear search
+        return [('unit length where the field is longer than the 1e-8 threshold (|o|^2 * |v|^2 == |v|^2, |v| > 0)', z3.Implies(nonzero, osq * sq == sq)),
                 ('zero where the field is within the threshold', z3.Implies(z3.Not(nonzero), oc == 0)),
                 ('orientation * length == field where non-zero (same direction)', z3.Implies(nonzero, oc * oc * sq == R(s.A(E, f, cell, idx[-1])) * R(s.A(E, f, cell, idx[-1])))),
                 ('orientation has the sign of the component', z3.Implies(nonzero, oc * R(s.A(E, f, cell, idx[-1])) >= 0)),
